@@ -214,6 +214,11 @@ def run(ctx):
                   split_axes=split_axes, split_only_outer=only_outer, shape1_padding=np.array(pad), analyzer_method=analyzer,
                   max_splits=max_splits)
         with contextlib.redirect_stdout(io.StringIO()):
+            if it % 2 == 0 and any(pad):
+                # the command line tool asks twice in one process: first without the tile margin, then with it;
+                # the second answer must not depend on the first request
+                compute_parallelization_schedule(**{**kw, "shape1_padding": np.zeros(nd, dtype=int)})
+                ctx.count("schedule:asked-without-margin-first")
             res = compute_parallelization_schedule(**kw)
         inp = {k: (v.tolist() if isinstance(v, np.ndarray) else v) for k, v in kw.items()}
         args = dict(shape1=list(shape1), shape2=list(shape2), padding=list(pad), maxCores=cores, maxRam=max_ram, method=method,
